@@ -14,7 +14,7 @@
 namespace cs {
 using namespace vf;
 
-enum Kind { C_NONE = 0, C_ALLOC /* a slot, c size */, C_DEALLOC /* a slot, b size variant */, C_FOREIGN /* a kind (0 never handed out, 1 already released), c size */,
+enum Kind { C_NONE = 0, C_ALLOC /* a slot, c size */, C_DEALLOC /* a slot, b size variant */, C_FOREIGN /* a kind (0 never handed out, 1 already released, 2 the null pointer), c size */,
             C_CLEAR_CACHE, C_CLEAR_ALL, C_HASFREE /* c size */, C_RECREATE /* destroy the cache and build a new one */,
             // profile 'global': SimpleString objects over a GlobalSimpleStringCache (the allocator adaptor and its installation)
             G_INSTALL, G_UNINSTALL /* a: 1 = strings made while caching are abandoned, not destroyed */, G_NEW /* a slot, c length, b content seed */,
@@ -109,7 +109,7 @@ struct Engine : public vf::Engine {
             Op o; unsigned x = (unsigned)w.below(100);
             if (x < 42) { o.kind = C_ALLOC; o.a = (int64_t)w.below((uint64_t)nSlots); o.c = (int64_t)(oneClass ? fixedSize : pickSize(w)); }
             else if (x < 80) { o.kind = C_DEALLOC; o.a = (int64_t)w.below((uint64_t)nSlots); o.b = (int64_t)w.below(3); }
-            else if (x < 86) { o.kind = C_FOREIGN; o.a = (int64_t)w.below(2); o.c = (int64_t)(w.chance(1, 2) && oneClass ? fixedSize : pickSize(w)); o.b = (int64_t)w.below((uint64_t)nSlots); }
+            else if (x < 86) { o.kind = C_FOREIGN; o.a = (int64_t)w.below(2); if (w.chance(1, 6)) o.a = 2; o.c = (int64_t)(w.chance(1, 2) && oneClass ? fixedSize : pickSize(w)); o.b = (int64_t)w.below((uint64_t)nSlots); }
             else if (x < 91) o.kind = C_CLEAR_CACHE;
             else if (x < 94) o.kind = C_CLEAR_ALL;
             else if (x < 98) { o.kind = C_HASFREE; o.c = (int64_t)pickSize(w); }
@@ -373,10 +373,11 @@ struct Engine : public vf::Engine {
             case C_FOREIGN: {
                 char* p = 0; size_t size = (size_t)o.c; int cls = classOf(size);
                 if (o.a == 0) p = foreignBuf[oi % 8];
+                else if (o.a == 2) p = 0;      // the null pointer is a buffer the cache never handed out
                 else { if (cls >= 5 || pool[cls].empty()) break; p = pool[cls][(size_t)o.b % pool[cls].size()]; p[0] = 's'; p[1] = 0; }   // second release of a buffer that sits in the free pool
                 size_t live0 = rec.liveCount();
                 if (adaptor) adaptor->free_memory(p, size, "cachesim", oi); else cache->dealloc(p, size);
-                foreignReleases++; fired(o.a == 0 ? "foreign_release" : "double_release");
+                foreignReleases++; fired(o.a == 0 ? "foreign_release" : (o.a == 2 ? "null_release" : "double_release"));
                 if (rec.liveCount() != live0 || rec.foreignFrees || rec.doubleFrees) r.fail("C18", "foreign_release", sg("what", "a release of unknown memory reached the allocator"), sfmt("op %zu", oi));
                 // nothing may have changed: every live buffer and every pooled buffer is still known (checked by later operations and at the end)
                 break;
